@@ -557,3 +557,31 @@ pub fn reref(property: &'static str) -> ReplCell {
     };
     c
 }
+
+/// Two disjoint hierarchies (two relation graphs): an insertion plus a mutation on a member of
+/// one of them in the tick in which members of the other are mutated.
+pub fn two_graphs_insert(property: &'static str) -> ReplCell {
+    let mut c = base("two-graphs-insert", property);
+    c.cfg.with_child = true;
+    c.cfg.sync_rel = true;
+    c.init = vec![
+        Op::Spawn(0, M_A),
+        Op::Spawn(1, M_A),
+        Op::Spawn(2, M_A),
+        Op::Spawn(3, M_A),
+        Op::SetParent(1, 0),
+        Op::SetParent(3, 2),
+    ];
+    c.ops_per_round = 3;
+    c.alphabet = vec![Op::Nop, Op::Ins(0, TB), Op::Mut(0, TA), Op::Mut(2, TA), Op::Mut(3, TA), Op::Ins(2, TB)];
+    c.rounds = 1;
+    c.tick_choice = false;
+    c.env = Env {
+        hold_acks: false,
+        hold_updates: 1,
+        mutations: MutMenu::Hold,
+        leftover_choice: false,
+        lossy: false,
+    };
+    c
+}
